@@ -69,7 +69,7 @@ meta["caught_by"] = [p for p, r in res.items() if r["exit"] == 1]
 meta["tier"] = a.tier
 os.makedirs(dst, exist_ok=True)
 for f in ("patch.diff", "demo.py", "notes.md"):
-    if os.path.exists(os.path.join(src, f)):
+    if os.path.exists(os.path.join(src, f)) and os.path.abspath(src) != os.path.abspath(dst):
         shutil.copy(os.path.join(src, f), os.path.join(dst, f))
 old = {}
 if os.path.exists(os.path.join(dst, "meta.json")):
